@@ -16,6 +16,7 @@ type SlashExp struct {
 }
 
 type Expect struct {
+	denom       string           // the denomination all amounts below are in
 	Delta       map[string]int64 // account hex -> expected balance change
 	Supply      int64            // expected change of total supply
 	Slashes     []SlashExp
@@ -24,8 +25,25 @@ type Expect struct {
 	Notes       []string
 }
 
-func newExpect() *Expect {
-	return &Expect{Delta: map[string]int64{}, DepositPost: map[string]int64{}, Settled: map[string]string{}}
+func newExpect() *Expect { return newExpectIn("stake") }
+
+func newExpectIn(denom string) *Expect {
+	return &Expect{denom: denom, Delta: map[string]int64{}, DepositPost: map[string]int64{}, Settled: map[string]string{}}
+}
+
+// depositSent: the amount of e's denomination the action sends as a deposit
+func (e *Expect) depositSent(a Action) int64 {
+	if a.Deposit == nil {
+		return 0
+	}
+	d := a.DepDenom
+	if d == "" {
+		d = "stake"
+	}
+	if d != e.denom {
+		return 0
+	}
+	return *a.Deposit
 }
 
 func (e *Expect) move(from, to string, amt int64) {
@@ -45,12 +63,12 @@ func (e *Expect) slash(w *World, pre *Snapshot, reqID, service, provHex string) 
 		if !found {
 			return
 		}
-		dep = stakeOf(b.Deposit)
+		dep = amtIn(b.Deposit, e.denom)
 	}
 	amt := floorMul(dep, w.cfg.Slash)
-	if w.cfg.baseDenom() != "stake" {
-		// a slash takes the fraction of the deposit's amount of the base denomination; deposits are
-		// held in "stake", so after the base denomination has moved elsewhere that amount is zero
+	if w.cfg.baseDenom() != e.denom {
+		// a slash takes the fraction of the deposit's amount of the base denomination: the part of
+		// a deposit held in another denomination is not touched
 		amt = 0
 	}
 	e.DepositPost[bk] = dep - amt
@@ -74,44 +92,42 @@ func (e *Expect) settleResponse(w *World, pre *Snapshot, reqID string, fee int64
 
 // ExpectedEffects returns the expected money movements of a successful step (nil Delta entries
 // mean zero). For failed steps everything is zero.
-func ExpectedEffects(w *World, m *Model, r *StepRec) *Expect {
-	e := newExpect()
+func ExpectedEffects(w *World, m *Model, r *StepRec) *Expect { return ExpectedEffectsIn(w, m, r, "stake") }
+
+// ExpectedEffectsIn: the same in one denomination (the harness's worlds hold at most two coins)
+func ExpectedEffectsIn(w *World, m *Model, r *StepRec, denom string) *Expect {
+	e := newExpectIn(denom)
 	if !r.OK {
 		return e
 	}
 	a, pre, post := r.Action, r.Pre, r.Post
 	switch a.Kind {
 	case KBind, KUpdateBind, KEnable:
-		if a.Deposit != nil {
-			e.move(a.Signer, w.DepositAcc, *a.Deposit)
-		}
+		sent := e.depositSent(a)
+		e.move(a.Signer, w.DepositAcc, sent)
 		bk := bkey(a.Service, a.Provider)
 		if b, ok := pre.Binds[bk]; ok {
-			d := stakeOf(b.Deposit)
-			if a.Deposit != nil {
-				d += *a.Deposit
-			}
-			e.DepositPost[bk] = d
+			e.DepositPost[bk] = amtIn(b.Deposit, denom) + sent
 		} else if a.Deposit != nil {
-			e.DepositPost[bk] = *a.Deposit
+			e.DepositPost[bk] = sent
 		}
 	case KRefundDep:
 		bk := bkey(a.Service, a.Provider)
 		if b, ok := pre.Binds[bk]; ok {
-			e.move(w.DepositAcc, hx(b.Owner), stakeOf(b.Deposit))
+			e.move(w.DepositAcc, hx(b.Owner), amtIn(b.Deposit, denom))
 			e.DepositPost[bk] = 0
 		}
 	case KRespond:
 		if rq, ok := pre.Reqs[a.ReqID]; ok {
 			rc := pre.Ctxs[hx(rq.RequestContextId)]
-			e.settleResponse(w, pre, a.ReqID, stakeOf(rq.ServiceFee), hx(rc.Consumer), rc.ServiceName, hx(rq.Provider), a.OutClass)
+			e.settleResponse(w, pre, a.ReqID, amtIn(rq.ServiceFee, denom), hx(rc.Consumer), rc.ServiceName, hx(rq.Provider), a.OutClass)
 		}
 	case KWithdraw:
 		var x int64
 		if a.Provider != "" {
-			x = pre.EarnedOf(a.Provider)
+			x = pre.EarnedOfIn(a.Provider, denom)
 		} else {
-			x = pre.OwnerEarn[a.Signer]
+			x = pre.ownerEarnIn(denom)[a.Signer]
 		}
 		to := a.Signer
 		if wa, ok := pre.Withdraw[a.Signer]; ok {
@@ -123,7 +139,7 @@ func ExpectedEffects(w *World, m *Model, r *StepRec) *Expect {
 		for _, id := range NewReqs(r) {
 			rq := post.Reqs[id]
 			rc := post.Ctxs[hx(rq.RequestContextId)]
-			fee := stakeOf(rq.ServiceFee)
+			fee := amtIn(rq.ServiceFee, denom)
 			e.move(hx(rc.Consumer), w.RequestAcc, fee)
 			if _, answered := post.Resps[id]; answered {
 				cls := "valid"
@@ -141,12 +157,14 @@ func ExpectedEffects(w *World, m *Model, r *StepRec) *Expect {
 				continue
 			}
 			if rc, ok := pre.Ctxs[hx(rq.RequestContextId)]; ok {
-				e.move(w.RequestAcc, hx(rc.Consumer), stakeOf(rq.ServiceFee))
+				e.move(w.RequestAcc, hx(rc.Consumer), amtIn(rq.ServiceFee, denom))
 				e.Settled[id] = "refunded"
 			}
 		}
 		for _, en := range pre.Earned {
-			e.move(w.RequestAcc, en.Provider, en.Amount)
+			if en.Denom == denom {
+				e.move(w.RequestAcc, en.Provider, en.Amount)
+			}
 		}
 	case KEndBlock:
 		// phase 1: every pending request whose expiry block this is
@@ -154,7 +172,7 @@ func ExpectedEffects(w *World, m *Model, r *StepRec) *Expect {
 			if ri.Super {
 				continue
 			}
-			e.move(w.RequestAcc, ri.Consumer, ri.Fee)
+			e.move(w.RequestAcc, ri.Consumer, ri.feeIn(denom))
 			e.slash(w, pre, ri.ID, ri.Service, ri.Provider)
 			e.Settled[ri.ID] = "refunded"
 		}
@@ -165,22 +183,25 @@ func ExpectedEffects(w *World, m *Model, r *StepRec) *Expect {
 			if !ok {
 				rc = pre.Ctxs[hx(rq.RequestContextId)]
 			}
-			e.move(hx(rc.Consumer), w.RequestAcc, stakeOf(rq.ServiceFee))
+			e.move(hx(rc.Consumer), w.RequestAcc, amtIn(rq.ServiceFee, denom))
 		}
 	}
 	return e
 }
 
 // balanceDiff lists the accounts whose balance changed, with the change.
-func balanceDiff(pre, post *Snapshot) map[string]int64 {
+func balanceDiff(pre, post *Snapshot) map[string]int64 { return balanceDiffIn(pre, post, "stake") }
+
+func balanceDiffIn(pre, post *Snapshot, denom string) map[string]int64 {
 	out := map[string]int64{}
-	for a, v := range post.Bal {
-		if d := v - pre.Bal[a]; d != 0 {
+	pb, qb := pre.balIn(denom), post.balIn(denom)
+	for a, v := range qb {
+		if d := v - pb[a]; d != 0 {
 			out[a] = d
 		}
 	}
-	for a, v := range pre.Bal {
-		if _, ok := post.Bal[a]; !ok && v != 0 {
+	for a, v := range pb {
+		if _, ok := qb[a]; !ok && v != 0 {
 			out[a] = -v
 		}
 	}
